@@ -13,7 +13,7 @@
    (anchors of properties.jsonl, spec.go Scopes), the struct types reachable from them through
    field types, and ALL package-level variables of the packages those files and types belong
    to: a new written package-level variable in such a package breaks the property whatever
-   file it is put in.
+   file it is put in (and one in a new package of the module breaks every property).
 
    After a reviewed, legitimate change of the state of the library: regenerate with
      cd harness && go run ./cmd/stategen -spec /repo > ../coq/Sys/StateInvSpec.v
@@ -732,8 +732,14 @@ Definition exp_structs : list (list string * sstruct) := [
 
 (* struct types of the packages that are in no property's scope (4): render.DualContouring2D render.PNG render.dc2 render.node2 *)
 
+(* a package this file does not know (a new internal package of the module, imported by the
+   packages above) is in the scope of every property *)
+Definition known_pkgs : list string := flat_map snd prop_pkgs.
+Definition unknown_pkgs : list string :=
+  filter (fun p => negb (mem p known_pkgs)) (map gv_pkg gen_vars).
+
 Definition pkgs_of (P : string) : list string :=
-  match assoc P prop_pkgs with Some l => l | None => [] end.
+  match assoc P prop_pkgs with Some l => l ++ unknown_pkgs | None => unknown_pkgs end.
 
 (* the differences between the generated inventory, restricted to the scope of P, and the expected one *)
 Definition state_diff (P : string) : list string :=
